@@ -238,8 +238,8 @@ PROPS['C18'] = dict(
     claim='Proof (partial): C18_no_panic_partial - for every database whose rows have one value per column (NULLs, any types) and '
           'every SELECT of a shape the parser produces, the model of EvaluateSelect returns rows or an error value; the only panic '
           'left is the ORDER BY comparator meeting two non-NULL values of different types in one column, excluded on typed columns by '
-          'C18_sort_safe; C09_total covers the front end. Not yet covered by a theorem: INSERT/UPDATE/DELETE/CREATE statements and the '
-          'session states (no USE / failed USE), which are correspondence-only (C01/C14/C17 runs). Tie: panic-site inventory of '
+          'C18_sort_safe; C09_total covers the front end. C18_dml_ddl_never_crash: for every database state related to a plain database (catalog invariant, any number of tables of any size and depth) and every CREATE TABLE / INSERT / UPDATE / DELETE the parser can produce that does not address the two catalog tables by name, the engine model returns ok or an error value - no panic, no unmodelled path, no fuel exhaustion (how the model would show a hang) - and a refused statement leaves the log alone (C18_dml_ddl_total); side conditions: literals that fit their Go types, 64-level fuel and offsets below 2^63 for INSERT and CREATE. '
+          'Not covered by a theorem: the session states (no USE / failed USE: C17 theorems and sess runs), statements addressed at sys_pages / sys_schema themselves (correspondence only). Tie: panic-site inventory of '
           'engine/*.go re-extracted every run; type-confused, NULL-bearing and ill-formed queries run under recover() and a watchdog.',
     note=EXEC_NOTE, assumptions=EXEC_ASSUME,
     rule='per database 46 fixed ill-typed / ill-formed queries (AVG over varchar/bool/NULL, ORDER BY over NULLs, unknown / ambiguous / '
@@ -256,7 +256,7 @@ STORE_NOTE = ('Trusted: Lean kernel (axioms propext, Classical.choice, Quot.soun
 PROPS['C01'] = dict(lean=['Mkdb.Props.C01'], facts=STORE_FACTS, runs=[dict(cmd='db', proto='db', args=['c01'])],
     sig_filter=r'db:(contents-differ:live|schema-differs:live|row-ids-not-increasing:live|row-id:live|panic:live|hang:live|select-failed:live|valid-statement-refused:live)',
     
-    claim='Proof (partial): C01_step / C01_history - for every history of tree operations of any length (inserts with whatever leaf splits, internal splits at any depth and root growths they cause, value changes, deletions) what a scan of the tree sees is exactly the plain list the history implies: accepted inserts appended in order, changed values in place, tombstones set; C01_select_sees_live_rows; C01_ids_strictly_increasing - row ids strictly increasing hence unique; C01_no_resurrection - a deleted row stays deleted through every later operation. C01_forest_* - trees sharing one file never share a page and an operation on one leaves the others alone. These are about the levels model of storage/btree.go (Mkdb.Tree); C01_heap_history / C01_heap_history_scan carry them to the heap model that is compared with the code: for every store whose page heap holds a well-formed tree and every history of inserts, value changes and deletions, the insertKeyHeap / findLeaf+updateCellAt / tombstone code of the heap model itself ends holding exactly the levels tree and scanRight returns its live cells (proved refinement, about 3500 lines, any depth up to the 64-level fuel). C01_statement_insert: at statement level, under the catalog invariant Cat (page table, sys_schema and user tables held as disjoint well-formed trees, page-table rows naming exactly them, row ids below the counter), RelationService.Insert finds the table through the catalog, appends the row under the next row id with whatever splits, re-points the catalog exactly when the root moved, logs exactly the records the model logs, leaves every other table alone and re-establishes Cat; C01_statement_unknown_table. C01_statement_select / _delete / _update: likewise Fetch returns the decoded live rows in scan order with the declared columns, MarkDeleted and Update change exactly the one row, log exactly one record and touch no other page or table, and refusals change nothing. C01_statement_create_table: CREATE TABLE of a new name adds exactly one page-table entry and one sys_schema row per declared column (read back as declared), leaves every other table and its columns alone, and its flush leaves no dirty page and the header on disk equal to the one in memory. END TO END: C01_insert_refines_plain_model, C01_delete_refines_plain_model, C01_update_refines_plain_model - whenever the plain in-memory model (Spec/Tables.lean, the very specification the judge evaluates on the implementation) accepts a multi-row INSERT, a DELETE or an UPDATE with its WHERE, the evaluator of the engine model (statement loop, catalog lookups, WHERE evaluation, row codec, B+ tree, log batch) succeeds and the resulting store abstracts - table by table, declared columns and decoded live rows in order - to the result of the plain model. Not covered by a theorem: the page codec under the heap (C12 separately), SELECT beyond SELECT * (C05-C07 on the executor model), statements on the catalog tables themselves. Tie: random DDL/DML histories over up to 12 tables through RelationService on real files, with page flushes and reloads at random points and histories deep enough for internal-node splits; after every statement the outcome, at intervals SELECT * of every table, the catalog, and the complete page heap are compared with the heap model (page by page: cells, flags, sibling links, LSNs, dirty bits, header), and the judge compares every table with the in-memory spec of the statements (Spec/Tables.lean) and checks row ids.',
+    claim='Proof (partial): C01_step / C01_history - for every history of tree operations of any length (inserts with whatever leaf splits, internal splits at any depth and root growths they cause, value changes, deletions) what a scan of the tree sees is exactly the plain list the history implies: accepted inserts appended in order, changed values in place, tombstones set; C01_select_sees_live_rows; C01_ids_strictly_increasing - row ids strictly increasing hence unique; C01_no_resurrection - a deleted row stays deleted through every later operation. C01_forest_* - trees sharing one file never share a page and an operation on one leaves the others alone. These are about the levels model of storage/btree.go (Mkdb.Tree); C01_heap_history / C01_heap_history_scan carry them to the heap model that is compared with the code: for every store whose page heap holds a well-formed tree and every history of inserts, value changes and deletions, the insertKeyHeap / findLeaf+updateCellAt / tombstone code of the heap model itself ends holding exactly the levels tree and scanRight returns its live cells (proved refinement, about 3500 lines, any depth up to the 64-level fuel). C01_statement_insert: at statement level, under the catalog invariant Cat (page table, sys_schema and user tables held as disjoint well-formed trees, page-table rows naming exactly them, row ids below the counter), RelationService.Insert finds the table through the catalog, appends the row under the next row id with whatever splits, re-points the catalog exactly when the root moved, logs exactly the records the model logs, leaves every other table alone and re-establishes Cat; C01_statement_unknown_table. C01_statement_select / _delete / _update: likewise Fetch returns the decoded live rows in scan order with the declared columns, MarkDeleted and Update change exactly the one row, log exactly one record and touch no other page or table, and refusals change nothing. C01_statement_create_table: CREATE TABLE of a new name adds exactly one page-table entry and one sys_schema row per declared column (read back as declared), leaves every other table and its columns alone, and its flush leaves no dirty page and the header on disk equal to the one in memory. END TO END: C01_insert_refines_plain_model, C01_delete_refines_plain_model, C01_update_refines_plain_model - whenever the plain in-memory model (Spec/Tables.lean, the very specification the judge evaluates on the implementation) accepts a multi-row INSERT, a DELETE or an UPDATE with its WHERE, the evaluator of the engine model (statement loop, catalog lookups, WHERE evaluation, row codec, B+ tree, log batch) succeeds and the resulting store abstracts - table by table, declared columns and decoded live rows in order - to the result of the plain model. C01_every_statement_refines_plain_model: one theorem over parsed statements - under the relation Rel (abstraction to the plain database, no stale sys_schema rows, page cache filed) every CREATE TABLE, INSERT, UPDATE or DELETE the plain model accepts succeeds in the engine model and Rel holds again with the plain model result; C01_create_table_refines_plain_model gives the new catalog exactly; C01_session_runs_evalStmt: the dispatcher of these theorems is the one of the session model that the sess harness compares with Session.ExecQuery. Not covered by a theorem: the page codec under the heap (C12 separately), SELECT beyond SELECT * (C05-C07 on the executor model), statements on the catalog tables themselves. Tie: random DDL/DML histories over up to 12 tables through RelationService on real files, with page flushes and reloads at random points and histories deep enough for internal-node splits; after every statement the outcome, at intervals SELECT * of every table, the catalog, and the complete page heap are compared with the heap model (page by page: cells, flags, sibling links, LSNs, dirty bits, header), and the judge compares every table with the in-memory spec of the statements (Spec/Tables.lean) and checks row ids.',
     note=STORE_NOTE,
     rule='1 deep history (1400 rows in one table, ~310 leaves, internal split; thorough also 2900 rows) + 12 (thorough 96) histories of 5-60 statements (thorough: every 8th has 260 statements over up to 12 tables of up to 11 columns), multi-row inserts of 1-12 rows, values up to the 400-byte row limit, 12% updates, 18% deletes, flush 10% / reload 5% per statement. Non-trivial: a history in which some table split a leaf; distinct by operation text.',
     assumptions=['row ids only ever arrive in ascending order (they come from the shared counter or from log replay)'],
@@ -282,7 +282,7 @@ PROPS['C14'] = dict(lean=['Mkdb.Props.C14'], facts=STORE_FACTS, runs=[dict(cmd='
           'the data file, the header on disk, the locating header fields; counters may advance, pages may be pulled into the cache) and the log untouched, hence also after '
           'a restart: C14_insert_first_row (unknown table, column-count mismatch, type mismatch, out-of-range integer, duplicate key), C14_insert_oversized_row, '
           'C14_create_table (duplicate table, out-of-range column length, catalog row too large - table or column name too long), C14_delete; '
-          'C14_insert_refused_plain_model: against the plain in-memory model - an INSERT the plain model refuses at its first row (or into an unknown table) is refused by the engine model and the store still abstracts to the same plain database; C14_insert_kth_row states exactly what happens when the k-th row (k >= 2) is refused: error returned, nothing logged, but the rows before it stay applied in the '
+          'C14_refused_statement_plain_model: one theorem over parsed statements against the plain in-memory model - every refusal that happens before a change (CREATE TABLE of an existing or catalog name or with a column length beyond 32 bits; INSERT into an unknown table or refused at its first row; UPDATE with a column source, of an unknown table, with a WHERE that cannot be evaluated or whose first selected row cannot be rewritten; DELETE of an unknown table or with a WHERE that cannot be evaluated) returns an error, logs nothing and leaves the store related to the SAME plain database through the SAME catalog trees; C14_delete_refused_plain_model / C14_update_refused_plain_model add that no page and no header field differs; C14_update_kth_row_plain_model states the known finding for UPDATE exactly (first k-1 selected rows stay rewritten, nothing logged). C14_insert_refused_plain_model: against the plain in-memory model - an INSERT the plain model refuses at its first row (or into an unknown table) is refused by the engine model and the store still abstracts to the same plain database; C14_insert_kth_row states exactly what happens when the k-th row (k >= 2) is refused: error returned, nothing logged, but the rows before it stay applied in the '
           'cache - the KNOWN FINDING db:failed-statement-applied-row-prefix (same in the implementation; not repaired). Not covered by a theorem: statement-level UPDATE '
           '(update_err needs a uniqueness hypothesis), and CREATE TABLE errors that could only arise on a damaged catalog. The proof attempt for CREATE TABLE produced a Lean '
           'counterexample that was a real defect (long table/column names; repaired, a86c798); C14_create_table_long_column_witness is its kernel-checked regression. '
